@@ -155,10 +155,12 @@ pub fn explore_with(cfg: &Rc<Cfg>, refr: &Rc<Reference>, opts: &Opts) -> Result<
                     }
                     sim.dead = true;
                 }
-                check_state(&mut sim, &snap, m, &mut out.ex);
+                // C20 probes come first: check_state polls is_finished(), which latches the engine's start
+                // status once every job is finished; the state in which nobody has polled yet must be probed too
                 if opts.misuse && !sim.dead {
                     misuse_checks(&mut sim, &mut out.ex);
                 }
+                check_state(&mut sim, &snap, m, &mut out.ex);
                 let fin = sim.eng.is_finished();
                 let en = if sim.dead {
                     vec![]
